@@ -214,6 +214,63 @@ Fixpoint feed (svc : service) (st : fstate) (chunks : list bytes) : fstate * byt
 Definition feed_all (svc : service) (chunks : list bytes) : fstate * bytes :=
   feed svc fs_init (chunks ++ [[]]).
 
+(* ---- the same caller when handle()'s inner BufReader has capacity [cap] and the chunk is a transient slice ----
+   handle() wraps the reader it is given in BufReader::new (capacity DEFAULT_BUF_SIZE = 8192). A slice always
+   fills the buffer completely, so refills happen at multiples of [cap] from the start of the slice; when a call
+   upgrades, the returned tail is what is left in that buffer: the bytes up to the end of the current block. A
+   caller who hands in a transient slice and keeps only the returned tail (test.rs, ping's listen_multiplex)
+   therefore drops everything beyond that block. [pos] is the number of bytes of the slice consumed so far. *)
+Definition block_room (cap pos : nat) : nat :=
+  match cap with O => O | _ => match Nat.modulo pos cap with O => O | m => cap - m end end.
+
+Fixpoint handle_loop_cap (cap : nat) (f : nat) (svc : service) (pos : nat) (s : bytes) : bytes * hres :=
+  match f with
+  | O => ([], HFuel)
+  | S f' =>
+      match cut_nul s with
+      | None => ([], HOk s None)
+      | Some (frame, rest) =>
+          match decode_request frame with
+          | Ok q =>
+              let '(o, oc) := serve svc q in
+              let pos' := (pos + S (length frame))%nat in
+              match oc with
+              | OCont => let '(o2, r) := handle_loop_cap cap f' svc pos' rest in (o ++ o2, r)
+              | OUpgrade i => (o, HOk (firstn (block_room cap pos') rest) (Some i))
+              | OFail => (o, HErr)
+              end
+          | _ => ([], HErr)
+          end
+      end
+  end.
+
+Definition handle_cap (cap : nat) (svc : service) (upg : option bytes) (s : bytes) : bytes * hres :=
+  match upg with
+  | Some i => (upgraded_out svc i s, HOk [] (Some i))
+  | None => handle_loop_cap cap (S (length s)) svc O s
+  end.
+
+Definition feed_step_cap (cap : nat) (svc : service) (st : fstate) (chunk : bytes) : fstate * bytes :=
+  if fs_closed st then (st, [])
+  else let '(o, r) := handle_cap cap svc (fs_upg st) (fs_tail st ++ chunk) in
+       match r with
+       | HOk t u => (mkfs t u false, o)
+       | _ => (mkfs [] None true, o)
+       end.
+
+Fixpoint feed_cap (cap : nat) (svc : service) (st : fstate) (chunks : list bytes) : fstate * bytes :=
+  match chunks with
+  | [] => (st, [])
+  | c :: r => let '(st1, o1) := feed_step_cap cap svc st c in
+              let '(st2, o2) := feed_cap cap svc st1 r in (st2, o1 ++ o2)
+  end.
+
+Definition feed_all_cap (cap : nat) (svc : service) (chunks : list bytes) : fstate * bytes :=
+  feed_cap cap svc fs_init (chunks ++ [[]]).
+
+(* the largest buffer the transient-slice caller ever hands to handle(): bounded by the whole stream *)
+Definition bufreader_capacity : nat := N.to_nat 8192.
+
 (* ---- specification: a byte-at-a-time automaton ---- *)
 (* ARun carries the partial message read so far, most recent byte first *)
 Inductive astate := ARun (rpartial : bytes) | AUp (i : bytes) | AClosed.
